@@ -184,13 +184,13 @@ class Lowered:
 
 
 class Lowerer:
-    def __init__(self, body, nl="\n", plant=None, site=None, seed=0, prefix=0):
+    def __init__(self, body, nl="\n", plant=None, site=None, seed=0, prefix=0, word=None):
         self.prefix = prefix  # number of comment lines put at the top of every file ("edited" version)
         self.body = to_tuple(body)
         self.nl = nl
         self.plant = plant
         self.site = site
-        self.word = c12_env.POOL_WORD[seed % len(c12_env.POOL_WORD)]
+        self.word = word if word is not None else c12_env.POOL_WORD[seed % len(c12_env.POOL_WORD)]
         self.files = {}
         self.order = []
         self.n = 0
@@ -514,8 +514,8 @@ class Lowerer:
         self.plant_info = info
 
 
-def lower(body, nl="\n", plant=None, site=None, seed=0, prefix=0):
-    return Lowerer(body, nl, plant, site, seed, prefix).lower()
+def lower(body, nl="\n", plant=None, site=None, seed=0, prefix=0, word=None):
+    return Lowerer(body, nl, plant, site, seed, prefix, word).lower()
 
 
 # --------------------------------------------------------------------------
